@@ -112,7 +112,13 @@ def cmdServerUdp (mode zones qhex impl : String) : Result :=
             let m := match expected with
               | none => "noreply"
               | some bs => if sameMessageBytes bs rb then impl else hexOfBytes bs
-            (m, (if !expectReply then ["fail:C09:replied-to-response-or-runt"] else []) ++ checkReply authOnly buf rb true)
+            -- TC exactly when cut short: the complete reply's length is the model's
+            let fullLen := match handleRawMessage authOnly (authOnlyResolver cfg) buf with
+              | some full => (match encodeMessage full with | .ok bs => bs.length | .error _ => 0)
+              | none => 0
+            let tcSet := (byteAt rb 2 / 2) % 2 == 1
+            let tcV := if fullLen > 0 && tcSet != decide (fullLen > 512) then ["fail:C09:tc-not-exactly-when-cut-short"] else []
+            (m, (if !expectReply then ["fail:C09:replied-to-response-or-runt"] else []) ++ checkReply authOnly buf rb true ++ tcV)
       let tag := match decodeMessage buf with
         | .ok m => if m.header.isResponse then "response" else if m.header.opcode != 0 then "opcode" else s!"query-q{m.questions.length}"
         | .error _ => if buf.length < 2 then "runt" else "unparseable"
